@@ -43,6 +43,8 @@ func Run(k *report.Check) {
 	if os.Getenv("C09_SKIP_SINGLE") == "" { // debugging aid
 		k.ExploreProc(fmt.Sprintf("single-db/d=%d", p.depth), mc.Config{}, p, single)
 	}
+	nf := nparams{depth: k.Pick(4, 5), n: 2, groups: 4, redeployedTwice: true}
+	k.ExploreProc(fmt.Sprintf("neighbours/redeployed-twice,n=%d,d=%d", nf.n, nf.depth), mc.Config{Deadline: k.Within(0.35)}, nf, neighbors)
 	np := nparams{depth: k.Pick(4, 6), n: 2, groups: 4}
 	k.ExploreProc(fmt.Sprintf("neighbours/n=%d,d=%d", np.n, np.depth), mc.Config{}, np, neighbors)
 	if k.Thorough() {
